@@ -228,6 +228,14 @@ var pureCallee = map[string]bool{
 	"fmt.Sprintf": true, "fmt.Sprint": true, "strconv.Itoa": true, "errors.Is": true,
 	"bytes.Equal": true, "bytes.HasPrefix": true, "bytes.HasSuffix": true, "strings.ToLower": true,
 	"fmt.Printf": true, "fmt.Println": true,
+	// library functions that only read the slices and strings they are given (their documented behaviour)
+	"sort.SearchStrings": true, "sort.SearchInts": true, "sort.SearchFloat64s": true,
+	"sort.StringsAreSorted": true, "sort.IntsAreSorted": true,
+	"bytes.Index": true, "bytes.IndexByte": true, "bytes.IndexAny": true, "bytes.LastIndex": true, "bytes.LastIndexByte": true,
+	"bytes.Contains": true, "bytes.ContainsAny": true, "bytes.Compare": true, "bytes.EqualFold": true, "bytes.Count": true,
+	"strings.Join": true, "strings.Index": true, "strings.Contains": true, "strings.HasPrefix": true, "strings.HasSuffix": true,
+	"strings.EqualFold": true, "strings.ToUpper": true, "strings.IndexByte": true, "strings.IndexAny": true, "strings.ContainsAny": true,
+	"strings.ContainsRune": true, "strings.Repeat": true,
 }
 
 func calleeName(callee *ssa.Function) string {
